@@ -260,6 +260,9 @@ class Exclude(Contract):
             cl.append(("C12.exclude.unchanged-when-absent", r == m))
         return cl
 
+    def result(self, ex, args):
+        return self.th.shape.fresh("excl")
+
     def loop0(self, st):
         new = st.loc("new_markers")
         N = st.loc("marker_name")
@@ -292,6 +295,9 @@ class Only(Contract):
               ("C12.only.same-when-only-those-names", z3.Implies(inside(m), ev(r) == ev(m)))]
         return cl
 
+    def result(self, ex, args):
+        return self.th.shape.fresh("only")
+
     def comp(self, st):
         kind = self.kinds[0]
         acc = st.loc("__acc")
@@ -314,8 +320,151 @@ def c12_contracts(th):
     return out
 
 
+
+# ---------------------------------------------------------------- C02: utils.intersection / union / cnf / dnf, class operators
+def star(l):
+    from pyvc.calls import StarArgs
+    return StarArgs(l)
+
+
+def alist_of(x):
+    x = x.alist if hasattr(x, "alist") else x
+    if isinstance(x, (tuple, list)):
+        arr = z3.K(z3.IntSort(), ANY)
+        for i, m in enumerate(x):
+            arr = z3.Store(arr, i, m.term)
+        return AList(None, arr, z3.IntVal(0), z3.IntVal(len(x)), True)
+    return x
+
+
+class NormalForm(Contract):
+    """cnf(m) / dnf(m): same meaning, no new variables.  Verified for compounds of the *same* kind and for leaves;
+    the distributive branch (itertools.product over the children's children) is an assumed contract guarded by the bounded part."""
+    assumed_cases = ["distributive branch: cnf of a MarkerUnion / dnf of a MultiMarker"]
+
+    def __init__(self, th, which):
+        self.th, self.which = th, which
+        self.target = U + which
+        self.recursive = True
+
+    def result(self, ex, args):
+        return self.th.shape.fresh(self.which)
+
+    def ensures(self, ex, args, result):
+        if not isinstance(result, AbsObj):
+            return [("returns-marker", z3.BoolVal(False))]
+        m, r = args[0].term, result.term
+        return [("C02.ev", ev(r) == ev(m)), ("C12.uses", z3.Implies(uses(r), uses(m)))]
+
+    def allowed_raise(self, ex, args, exc):
+        return z3.BoolVal(False)
+
+    def cases(self, th):
+        same = "MultiMarker" if self.which == "cnf" else "MarkerUnion"
+        for k in [same, "MarkerExpression", "EqualityMarkerUnion", "InequalityMultiMarker", "AnyMarker", "EmptyMarker"]:
+            m = th.shape.fresh("marker")
+            yield k, [m], [is_cls(m.term, k)]
+
+    def comp(self, st):
+        acc = st.loc("__acc")
+        me = st.loc("marker").term
+        K = AList(None, kids(me), z3.IntVal(0), nkids(me))
+        i = z3.Int(fresh_name("ci"))
+        return [("len", acc.n == st.k), ("pointwise", z3.ForAll([i], z3.Implies(z3.And(0 <= i, i < st.k), z3.And(ev(at(acc, i)) == ev(at(K, i)), z3.Implies(uses(at(acc, i)), uses(at(K, i)))))))]
+
+
+class Intersection(Contract):
+    target = U + "intersection"
+
+    def __init__(self, th):
+        self.th = th
+
+    def result(self, ex, args):
+        return self.th.shape.fresh("inter")
+
+    def ensures(self, ex, args, result):
+        ms = alist_of(args[0])
+        if not isinstance(result, AbsObj):
+            return [("returns-marker", z3.BoolVal(False))]
+        return [("C02.ev", ev(result.term) == fold("MultiMarker", ms)), ("C12.uses", z3.Implies(uses(result.term), ex_(ms, uses)))]
+
+    def allowed_raise(self, ex, args, exc):
+        return z3.BoolVal(False)
+
+    def cases(self, th):
+        yield "markers", [star(th.lshape.fresh("markers"))], []
+
+
+class UnionFn(Contract):
+    target = U + "union"
+
+    def __init__(self, th):
+        self.th = th
+
+    def result(self, ex, args):
+        return self.th.shape.fresh("union")
+
+    def ensures(self, ex, args, result):
+        ms = alist_of(args[0])
+        if not isinstance(result, AbsObj):
+            return [("returns-marker", z3.BoolVal(False))]
+        return [("C02.ev", ev(result.term) == fold("MarkerUnion", ms)), ("C12.uses", z3.Implies(uses(result.term), ex_(ms, uses)))]
+
+    def allowed_raise(self, ex, args, exc):
+        return z3.BoolVal(False)
+
+    def cases(self, th):
+        yield "markers", [star(th.lshape.fresh("markers"))], []
+
+    @staticmethod
+    def filt(st):
+        """generator `m for m in markers if not m.is_empty()`"""
+        acc, ms = st.loc("__acc"), st.loc("markers")
+        return [("len", acc.n >= 0), ("ev", ex_(acc, ev) == ex_(ms, ev, hi=st.k)), ("uses", z3.Implies(ex_(acc, uses), ex_(ms, uses, hi=st.k)))]
+
+    @staticmethod
+    def unwrap(st):
+        u = st.loc("unnormalized")
+        ms = st.loc("markers")
+        if not isinstance(u, AbsObj):
+            return [("is-marker", z3.BoolVal(False))]
+        return [("ev", ev(u.term) == ex_(ms, ev)), ("uses", z3.Implies(uses(u.term), ex_(ms, uses)))]
+
+
+class ClassOp(Contract):
+    """__and__ / __or__ of AnyMarker, EmptyMarker, MultiMarker, MarkerUnion on an arbitrary marker operand"""
+
+    def __init__(self, th, q, kind, op):
+        self.th, self.kind, self.op = th, kind, op
+        self.target = q + op
+
+    def result(self, ex, args):
+        return self.th.shape.fresh("op")
+
+    def ensures(self, ex, args, result):
+        if not isinstance(result, AbsObj):
+            return [("returns-marker", z3.BoolVal(False))]
+        a, b2, r = args[0].term, args[1].term, result.term
+        comb = z3.And if self.op == "__and__" else z3.Or
+        return [("C02.ev", ev(r) == comb(ev(a), ev(b2))), ("C12.uses", z3.Implies(uses(r), z3.Or(uses(a), uses(b2))))]
+
+    def allowed_raise(self, ex, args, exc):
+        return z3.BoolVal(False)
+
+    def cases(self, th):
+        a, b2 = th.shape.fresh("self"), th.shape.fresh("other")
+        yield self.kind, [a, b2], [is_cls(a.term, self.kind)]
+
+
+def c02_contracts(th):
+    out = [NormalForm(th, "cnf"), NormalForm(th, "dnf"), Intersection(th), UnionFn(th)]
+    for q, kind in (("dep_logic.markers.any:AnyMarker.", "AnyMarker"), ("dep_logic.markers.empty:EmptyMarker.", "EmptyMarker"), (MM, "MultiMarker"), (MU, "MarkerUnion")):
+        out += [ClassOp(th, q, kind, "__and__"), ClassOp(th, q, kind, "__or__")]
+    return out
+
+
 def all_contracts(th):
-    cs = [FlattenItems(th), Of(th, "MultiMarker"), Of(th, "MarkerUnion")] + c12_contracts(th)
+    cs = [FlattenItems(th), Of(th, "MultiMarker"), Of(th, "MarkerUnion")] + c12_contracts(th) + c02_contracts(th)
     return {c.target: c for c in cs}
 
 
@@ -344,6 +493,12 @@ def loop_specs(th):
         specs[(q + "of", 0)] = LoopSpec({"old_markers": L, "new_markers": L}, c.outer)
         specs[(q + "of", 1)] = LoopSpec({"new_markers": L}, c.middle)
         specs[(q + "of", 2)] = LoopSpec({"new_markers": L, flag: BOOL}, c.inner)
+    nf_c, nf_d = NormalForm(th, "cnf"), NormalForm(th, "dnf")
+    # cnf: ordinals 0,1,2 = the three comprehensions of the MarkerUnion branch (assumed), 3 = the MultiMarker branch; dnf dually
+    specs[(U + "cnf", 3)] = (L, [LoopSpec({"__acc": L}, nf_c.comp)])
+    specs[(U + "dnf", 3)] = (L, [LoopSpec({"__acc": L}, nf_d.comp)])
+    specs[(U + "union", 1)] = (L, [LoopSpec({"__acc": L}, UnionFn.filt)])
+    specs[(U + "union", 2)] = LoopSpec({"unnormalized": th.shape}, UnionFn.unwrap)
     for c in c12_contracts(th):
         if c.owner in ("multi", "union"):
             if isinstance(c, Exclude) and c.method == "exclude":
